@@ -2646,6 +2646,12 @@ impl Engine for Read {
         }
         // a broken reader fails on thousands of cases (the case "shape" the runner groups failures by
         // contains the whole payload, so they are all kept): shrink the first few only
+        // a registered finding (the third-party /proc parser) needs no minimised input on every run: its
+        // witnesses are in corpus/read/finding-procfs-mmappath.txt
+        let r0 = self.exec(case);
+        if !r0.oracle.is_empty() && r0.oracle.iter().all(|(c, _)| c == "panic-procfs-core") {
+            return case.to_string();
+        }
         static SHRUNK: std::sync::atomic::AtomicUsize = std::sync::atomic::AtomicUsize::new(0);
         if SHRUNK.fetch_add(1, std::sync::atomic::Ordering::SeqCst) >= 6 {
             return case.to_string();
@@ -2656,7 +2662,7 @@ impl Engine for Read {
             *evals += 1;
             still_fails(&case_line(b, &cat))
         };
-        let budget = |evals: u32| evals < 160 && t0.elapsed() < Duration::from_secs(45);
+        let budget = |evals: u32| evals < 160 && t0.elapsed() < Duration::from_secs(25);
         // 1. cut the tail
         let mut step = bytes.len() / 2;
         while step >= 1 && budget(evals) {
